@@ -13,7 +13,9 @@
 //!
 //! script steps (space separated after `U <id> <events-buffer: L|S>`):
 //!   s:min:max:mask:keep:ev   subscribe (mask over the 24 paths, 16777215 = one wildcard path;
-//!                            ev=1 adds a wildcard event path); the first priming chunk is held
+//!                            ev=1 adds a wildcard event path); the first priming chunk is held.
+//!                            Optional 7th field: DataVersionFilters `f<c>+<d>/...`: cluster index c
+//!                            (endpoint c/2, cluster 10 + c%2), version = its current data version + d
 //!   a / A                    answer the held priming chunk / all of them up to the SubscribeResponse
 //!   c:k   e:prio             change attribute k / emit an event (device side)
 //!   r:ms                     wait up to ms for a report; its first chunk is held
@@ -80,6 +82,8 @@ fn index_of_path(ep: u16, cl: u32, at: u32) -> Option<u64> {
 
 struct Synth {
     vers: Vec<Cell<u32>>,
+    /// data version of each of the six clusters (index = endpoint * 2 + cluster - 10), bumped by every change
+    dvs: Vec<Cell<u32>>,
     node: &'static Node<'static>,
 }
 
@@ -100,7 +104,7 @@ impl Synth {
         }
         let endpoints: &'static [Endpoint<'static>] = Box::leak(endpoints.into_boxed_slice());
         let node: &'static Node<'static> = Box::leak(Box::new(Node::new(endpoints)));
-        Synth { vers: (0..NEAR).map(|_| Cell::new(1)).collect(), node }
+        Synth { vers: (0..NEAR).map(|_| Cell::new(1)).collect(), dvs: (0..6).map(|c| Cell::new(40 + c)).collect(), node }
     }
 }
 
@@ -108,7 +112,7 @@ impl Handler for Synth {
     fn read(&self, ctx: impl ReadContext, reply: impl ReadReply) -> Result<(), Error> {
         let attr = ctx.attr();
         let k = index_of_path(attr.endpoint_id, attr.cluster_id, attr.attr_id).ok_or(ErrorCode::AttributeNotFound)?;
-        let Some(mut writer) = reply.with_dataver(1)? else {
+        let Some(mut writer) = reply.with_dataver(self.dvs[(k / 4) as usize].get())? else {
             return Ok(());
         };
         let mut v = self.vers[k as usize].get().to_le_bytes().to_vec();
@@ -160,7 +164,7 @@ impl rs_matter::dm::AsyncHandler for SynthDm<'_> {
 
 // ------------------------------------------------------------------ messages
 
-fn subscribe_request(min: u16, max: u16, mask: u64, keep: bool, events: bool) -> Vec<u8> {
+fn subscribe_request(min: u16, max: u16, mask: u64, keep: bool, events: bool, filters: &[(u64, u32)]) -> Vec<u8> {
     let mut buf = vec![0u8; 900];
     let n = {
         let mut wb = WriteBuf::new(&mut buf);
@@ -193,6 +197,19 @@ fn subscribe_request(min: u16, max: u16, mask: u64, keep: bool, events: bool) ->
                 wb.end_container()?;
             }
             wb.bool(&TLVTag::Context(7), false)?;
+            if !filters.is_empty() {
+                wb.start_array(&TLVTag::Context(8))?;
+                for (c, dv) in filters {
+                    wb.start_struct(&TLVTag::Anonymous)?;
+                    wb.start_list(&TLVTag::Context(0))?;
+                    wb.u16(&TLVTag::Context(1), (c / 2) as u16)?;
+                    wb.u32(&TLVTag::Context(2), (10 + c % 2) as u32)?;
+                    wb.end_container()?;
+                    wb.u32(&TLVTag::Context(1), *dv)?;
+                    wb.end_container()?;
+                }
+                wb.end_container()?;
+            }
             wb.u8(&TLVTag::Context(0xff), 12)?;
             wb.end_container()?;
             Ok(wb.get_tail())
@@ -317,6 +334,9 @@ struct SubInfo {
     established: bool,
     ended_by_script: bool,
     since_evn: u64,
+    /// paths of clusters whose DataVersionFilter equals the cluster's version at the subscribe request:
+    /// the priming leaves them out (the subscriber says it holds that version already)
+    held_already: u64,
 }
 
 /// the report (or priming) whose chunk is currently unanswered
@@ -539,7 +559,8 @@ fn run<const NE: usize>(steps: &[String]) -> String {
                             if info.mask & (1 << k) == 0 || h.passed & (1 << k) != 0 {
                                 continue;
                             }
-                            let emitted = h.chunk.attrs.iter().any(|a| a.0 == k);
+                            let emitted = h.chunk.attrs.iter().any(|a| a.0 == k)
+                                || (h.t_iter.is_none() && info.held_already & (1 << k) != 0);
                             // skipped paths up to the last emitted one belong to this chunk; the trailing ones
                             // to the last chunk
                             if emitted || last.map_or(false, |l| k < l) || !h.chunk.more {
@@ -757,8 +778,22 @@ fn run<const NE: usize>(steps: &[String]) -> String {
                 match f[0] {
                     "s" => {
                         let (min, max, mask, keep, events) = (n(1) as u16, n(2) as u16, n(3), n(4) != 0, n(5) != 0);
+                        // DataVersionFilters: f<cluster index>+<delta to the current version>
+                        let mut filters: Vec<(u64, u32)> = Vec::new();
+                        let mut held_already = 0u64;
+                        if let Some(spec) = f.get(6) {
+                            for item in spec.split('/') {
+                                if let Some((c, d)) = item.trim_start_matches('f').split_once('+') {
+                                    let (c, d): (u64, u32) = (c.parse().unwrap_or(0) % 6, d.parse().unwrap_or(0));
+                                    filters.push((c, synth.dvs[c as usize].get() + d));
+                                    if d == 0 {
+                                        held_already |= 0xf << (4 * c);
+                                    }
+                                }
+                            }
+                        }
                         let mut ex = Exchange::initiate(&matter_a, &crypto, NonZeroU8::new(1).unwrap(), B_NODE).await?;
-                        ex.send(OpCode::SubscribeRequest, &subscribe_request(min, max, mask, keep, events)).await?;
+                        ex.send(OpCode::SubscribeRequest, &subscribe_request(min, max, mask, keep, events, &filters)).await?;
                         ex.recv_fetch().await?;
                         let (opcode, payload) = {
                             let rx = ex.rx()?;
@@ -784,8 +819,14 @@ fn run<const NE: usize>(steps: &[String]) -> String {
                             tr.op(format!("S:1:{}:{}:{}:{}:{{t{}}}:0", A_NODE, min, max.max(40), mask, t));
                             subs_info.borrow_mut().insert(
                                 sid,
-                                SubInfo { mask, min, max: max.max(40), events, t_acc: t, established: false, ended_by_script: false, since_evn: evn.get() },
+                                SubInfo { mask, min, max: max.max(40), events, t_acc: t, established: false, ended_by_script: false, since_evn: evn.get(), held_already },
                             );
+                            // what the subscriber says it holds already
+                            for k in 0..NEAR {
+                                if mask & held_already & (1 << k) != 0 {
+                                    known.borrow_mut().insert((sid, k), synth.vers[k as usize].get());
+                                }
+                            }
                         }
                         let mut h = Held { ex, sid, chunk, passed: 0, t_iter: None, l_iter: None, evn_at_begin: evn.get(), insert_at: None, seen_at_add: state.subscriptions().verif_snapshot().next_change_id - 1 };
                         note_chunk!(&mut h);
@@ -835,6 +876,7 @@ fn run<const NE: usize>(steps: &[String]) -> String {
                         let k = n(1) % NEAR;
                         let (ep, cl, at) = path_of_index(k);
                         synth.vers[k as usize].set(synth.vers[k as usize].get() + 1);
+                        synth.dvs[(k / 4) as usize].set(synth.dvs[(k / 4) as usize].get() + 1);
                         dm.notify_attr_changed(ep, cl, at);
                         trace.borrow_mut().op(format!("C:{}:{}:{}", ep, cl, at));
                         trace.borrow_mut().snap(snapshot());
